@@ -357,10 +357,12 @@ def violations (r : Req) : List (String × List (Nat × Option Int)) :=
     v (match r.content with | .malformed => true | _ => false) "malformed body" [(400, none)] ++
     v (isBatch && bLe spec20250618 pv) "batch under >= 2025-06-18" [(400, none)] ++
     v (reqs.any (fun m => m.check != .ok)) "checkRequest failed" [(400, none), (404, some (-32601))] ++
-    v (reqs.any (fun m => (newProto || m.metaVersion != []) && !stateless && m.method != specDiscover)) "new protocol on a stateful server" [(400, some (-32022))] ++
-    v (reqs.any (fun m => (newProto || m.metaVersion != []) && r.version == [])) "version header missing for per-request metadata" [(400, some (-32020))] ++
-    v (reqs.any (fun m => (newProto || m.metaVersion != []) && m.metaVersion == [])) "_meta protocolVersion missing" [(400, some (-32602))] ++
-    v (reqs.any (fun m => (newProto || m.metaVersion != []) && r.version != [] && m.metaVersion != [] && r.version != m.metaVersion)) "version header differs from _meta" [(400, some (-32020))] ++
+    -- the per-request-metadata rules bind every request of the body, whether the body is one message or a JSON array
+    (let inArr := if isBatch then s!" (request inside a JSON array body of {msgs.length})" else ""
+     v (reqs.any (fun m => (newProto || m.metaVersion != []) && !stateless && m.method != specDiscover)) ("new protocol on a stateful server" ++ inArr) [(400, some (-32022))] ++
+     v (reqs.any (fun m => (newProto || m.metaVersion != []) && r.version == [])) ("version header missing for per-request metadata" ++ inArr) [(400, some (-32020))] ++
+     v (reqs.any (fun m => (newProto || m.metaVersion != []) && m.metaVersion == [])) ("_meta protocolVersion missing" ++ inArr) [(400, some (-32602))] ++
+     v (reqs.any (fun m => (newProto || m.metaVersion != []) && r.version != [] && m.metaVersion != [] && r.version != m.metaVersion)) ("version header differs from _meta" ++ inArr) [(400, some (-32020))]) ++
     (match isBatch, msgs with
      | false, [m] =>
        if !(newProto && m.isReq) then [] else
